@@ -34,6 +34,12 @@ def htTimedelta (days seconds microseconds femtoseconds yoctoseconds : Int) : Ex
 /-- Python `arg_to_uint` on ints: negative → ValueError. -/
 def argToUint (x : Int) : Except PyErr Int := if x < 0 then .error .ValueError else .ok x
 
+/-- `for i in range(lo, lo + n): …; yield …` of a generator, materialised (`list(generator)`): the values yielded in order, or the first
+    exception; `s` is the loop-carried variable, `f i s` returns the new `s` and what iteration `i` yielded -/
+def genRange {σ β : Type} : (lo n : Nat) → σ → (Nat → σ → Except PyErr (σ × List β)) → Except PyErr (List β)
+  | _, 0, _, _ => .ok []
+  | lo, n + 1, s, f => (f lo s).bind fun r => (genRange (lo + 1) n r.1 f).map (r.2 ++ ·)
+
 /-- `arg_to_uint(description, value, default)` for an optional argument: `None` takes the default (which is range-checked like a
     given value); `None` without a default is a TypeError -/
 def argToUintOpt (x : Option Int) (dflt : Option Int) : Except PyErr Int :=
